@@ -15,6 +15,7 @@ import (
 	"crypto/sha256"
 	"encoding/hex"
 	"fmt"
+	"os"
 	"reflect"
 	"runtime"
 	"runtime/debug"
@@ -158,6 +159,7 @@ type Sched struct {
 	endArmed, endTickers, endLeft int
 	harnessLeft                   []string
 	race                          raceState
+	crashed                       bool           // a thread panicked without recovering: the process is gone
 	alive                         sync.WaitGroup // goroutines of this execution that have not returned yet
 }
 
@@ -796,6 +798,13 @@ func (s *Sched) spawn(name string, f func(), service bool) *thread {
 			}
 			t.state = tDone
 			t.op = nil
+			if t.panicv != nil && !s.finished {
+				// an unrecovered panic in any goroutine ends the process: nothing that would follow is a behaviour
+				s.crashed = true
+				s.endOfExecution()
+				s.mu.Unlock()
+				return
+			}
 			if s.cur == t {
 				s.cur = nil
 				s.step(nil)
@@ -805,6 +814,32 @@ func (s *Sched) spawn(name string, f func(), service bool) *thread {
 		f()
 	}()
 	return t
+}
+
+// Crash ends the execution as a process exit requested by the calling thread (the logger's fatal-exit path: the
+// event loop recovers its own panics, logs them at fatal level and the process exits).
+func Crash(msg string) {
+	s := mine()
+	head, rest := msg, ""
+	if i := strings.Index(msg, "\n"); i >= 0 {
+		head, rest = msg[:i], msg[i+1:]
+	}
+	s.mu.Lock()
+	name := "?"
+	if s.cur != nil {
+		name = s.cur.name
+	}
+	st := trimStack(rest)
+	if i := strings.Index(st, " <- "); i >= 0 && strings.Contains(st[:i], ".func") {
+		st = st[i+4:] // the deferred function that recovered: the faulting frame follows
+	}
+	s.Panics = append(s.Panics, fmt.Sprintf("%s: fatal exit: %s\n%s", name, head, st))
+	if !s.finished {
+		s.crashed = true
+		s.endOfExecution()
+	}
+	s.mu.Unlock()
+	runtime.Goexit()
 }
 
 func trimStack(st string) string {
@@ -863,7 +898,9 @@ func (s *Sched) endOfExecution() {
 		}
 	}
 	s.Cycle = s.waitCycle()
-	if len(blockedSend) > 0 && s.Diverged == "" && !s.Truncated {
+	if s.crashed {
+		s.Cycle = ""
+	} else if len(blockedSend) > 0 && s.Diverged == "" && !s.Truncated {
 		all := append(append([]string{}, blockedSend...), harness...)
 		for _, t := range s.threads {
 			if t.state == tRunnable && t.op != nil && t.service && t.op.kind != opSend && !(t.op.kind == opSelect && hasSend(t.op)) {
@@ -1293,6 +1330,10 @@ func Run(prefix []int, fireBudget, tickBudget, maxPoints int, body func()) Resul
 	case <-time.After(120 * time.Second):
 		s.mu.Lock()
 		s.Diverged = "execution did not finish (a managed thread blocked outside the scheduler?)\n" + s.dump()
+		if os.Getenv("VERIF_DEBUG") != "" {
+			buf := make([]byte, 1<<20)
+			fmt.Fprintf(os.Stderr, "DIVERGED\n%s\n", buf[:runtime.Stack(buf, true)])
+		}
 		s.finished = true
 		s.mu.Unlock()
 	}
